@@ -1250,6 +1250,16 @@ func (c *Compiler) compileFunc(node *ast.Func) error {
 	if freeCount > 0 {
 		for i := uint16(0); i < freeCount; i++ {
 			resolution := code.symbols.Free(i)
+			if resolution.depth > 1 {
+				// The variable belongs to a function further out than the one that
+				// creates this closure. Capture it in the creating function as well and
+				// hand its cell on: finding the owner's frame by position only works
+				// while every function in between is still executing.
+				if outer, found := c.current.symbols.Resolve(resolution.symbol.Name()); found && outer.scope == Free {
+					c.emit(op.MakeCell, uint16(outer.freeIndex), op.MakeCellFromFree)
+					continue
+				}
+			}
 			c.emit(op.MakeCell, resolution.symbol.Index(), uint16(resolution.depth-1))
 		}
 		c.emit(op.LoadClosure, c.constant(fn), freeCount)
